@@ -10,6 +10,7 @@ require (
 	github.com/vmihailenco/msgpack/v5 v5.4.0
 	go.uber.org/zap v1.24.0
 	golang.org/x/crypto v0.21.0
+	gorm.io/gorm v1.25.4
 )
 
 require (
@@ -118,7 +119,6 @@ require (
 	gopkg.in/yaml.v3 v3.0.1 // indirect
 	gorm.io/driver/postgres v1.5.2 // indirect
 	gorm.io/driver/sqlite v1.5.3 // indirect
-	gorm.io/gorm v1.25.4 // indirect
 	moul.io/zapgorm2 v1.3.0 // indirect
 )
 
